@@ -25,6 +25,7 @@ import (
 	"github.com/EliCDavis/vector/vector2"
 	"github.com/EliCDavis/vector/vector3"
 
+	"polyverif/internal/gen"
 	"polyverif/internal/ref"
 	"polyverif/internal/run"
 )
@@ -39,38 +40,49 @@ func Spec() *run.Spec {
 			"stl.ReadMesh, stl.Read and stl.Write; non-trivial iff n ≥ 2 and some vertex is shared by ≥ 2 corners. " +
 			"bytes-rt: one case = one well-formed STL byte string from the reference encoder (random header, n = 0…300 (thorough …3000) records, normals zero/geometric/random-unit/non-unit/mixed, " +
 			"random attribute words, degenerate facets); non-trivial iff n ≥ 2 and (some attribute word ≠ 0 or some normal ≠ 0). " +
-			"large: case i runs the mesh-rt oracle (i even) or the bytes-rt oracle (i odd) on n = largeSizes[(i/2) mod 10] triangles: 4095, 4096, 4097, 5000, 8191, 8192, 8193, 10000, 16385 or a random count in 20000…70000 " +
+			"large: case i runs the mesh-rt oracle (i even) or the bytes-rt oracle (i odd) on n = largeSizes[(i/2) mod 13] triangles: 4095, 4096, 4097, 5000, 8191, 8192, 8193, 10000, 12289, 16385, 20000, 50000 or a random count in 20000…70000, " +
+			"then writes the same output again (stl.WriteMesh resp. stl.Write) into every slow / piecewise sink kind — slow (1–5 ms per Write), 512-byte looping wrapper, small bufio.Writer, os.File, io.Pipe with a slow reader, plain buffer — and compares count field and records byte for byte, in order, with the verified output " +
 			"(around typical batch / buffer sizes); every record is compared in order, so a permuted, overwritten or zero tail is seen. Both ordinary phases also draw 1023/1024/1025/2047/2048/2049. " +
 			"fault-sequences: one case = a history of 3–8 operations in one goroutine mixing complete mesh-rt / bytes-rt cases (n = 0…612) with stl.WriteMesh / stl.Write to a writer that fails for good after k bytes " +
 			"(k in the header, the count field, the first record, the middle of the records, a record boundary or the last byte; refusing or partially accepting the failing call) and stl.Read / stl.ReadMesh from a reader that fails after k bytes; " +
 			"a failing call must report an error, every good operation must pass its complete oracle whatever failed before; non-trivial iff a failure inside the records is followed by a good operation. " +
+			"Every ordinary read draws the reader KIND (bytes.Reader, struct{io.Reader}, iotest.OneByteReader / HalfReader / DataErrReader, io.LimitReader with trailing garbage, chunked, small bufio.Reader, os.File, io.Pipe) and every ordinary write the sink kind (bytes.Buffer, small bufio.Writer, looping chunk wrapper, os.File). " +
+			"mixed-zero files place the records without a stored normal first / last / in the middle / at both ends / alternating / all but the last / only the first / at random. " +
 			"Distinctness = phase / size bucket / index pattern / normal kind / value class / extras.",
 		Assumptions: []string{
 			"positions are finite and |x| < 1e30 so that float32 rounding never overflows (NaN/Inf are out of reach)",
 			"a facet whose corner-normal mean is shorter than 1e-3 of the longest corner normal has no defined direction: its normal is not compared (counted in normals_skipped_undefined)",
 			"a facet with edge-angle sine ≤ 1e-6 has no defined geometric normal: where the geometric normal is the expected value it is not compared (counted in normals_skipped_degenerate)",
+			"stl.ReadMesh defines: as soon as ONE record of a file stores a non-zero normal the mesh reports a Normal attribute, and a record whose stored normal is zero gets the geometric normal (v2−v1)×(v3−v1) normalised — wherever that record lies relative to the records with normals; this is what the monitor demands of the mesh read back (1e-6), while a record re-written from such a mesh may hold zero or the geometric normal",
 			"a file written from a mesh without normals may store either the zero vector or the geometric normal; stl.ReadMesh may or may not report a Normal attribute for it (if it does it must be the geometric normal)",
 			"injected writer faults are permanent (every call after the first failing one fails too) and always return a non-nil error; injected reader faults deliver k < 84+50n bytes and then return an error (io.EOF included: a truncated file)",
 			"the 80-byte header and the attribute word of files written from a mesh are not constrained by the property; header preservation by stl.Write(stl.Read(b)) is counted, not judged",
 		},
 		MinNontrivial: map[string]int{"quick": 120, "thorough": 400},
 		MinObserved: map[string]int64{
-			"facets_parsed_independently":             5000,
-			"stored_normals_compared":                 1000,
-			"geometric_normals_compared":              200,
-			"readmesh_corners_compared":               10000,
-			"foreign_records_roundtripped":            5000,
-			"index_patterns":                          7,
-			"normal_kinds":                            4,
-			"foreign_normal_kinds":                    5,
-			"zero_triangle_cases":                     20,
-			"fault_histories":                         1000,
-			"failed_writes_reported":                  1000,
-			"failed_reads_reported":                   300,
-			"good_ops_after_a_failure_in_the_records": 500,
-			"write_fault_positions":                   6,
-			"large_sizes":                             9,
-			"large_records_compared":                  150000,
+			"facets_parsed_independently":                            5000,
+			"stored_normals_compared":                                1000,
+			"geometric_normals_compared":                             200,
+			"readmesh_corners_compared":                              10000,
+			"foreign_records_roundtripped":                           5000,
+			"index_patterns":                                         7,
+			"normal_kinds":                                           4,
+			"foreign_normal_kinds":                                   5,
+			"zero_triangle_cases":                                    20,
+			"fault_histories":                                        1000,
+			"failed_writes_reported":                                 1000,
+			"failed_reads_reported":                                  300,
+			"good_ops_after_a_failure_in_the_records":                500,
+			"write_fault_positions":                                  6,
+			"files_with_normal_less_records_before_the_first_normal": 200,
+			"files_with_normal_less_records_after_the_last_normal":   200,
+			"files_with_normal_less_records_between_normals":         200,
+			"mixed_zero_arrangements":                                8,
+			"reader_kinds":                                           9,
+			"writer_kinds":                                           4,
+			"large_sink_kinds":                                       6,
+			"large_sizes":                                            9,
+			"large_records_compared":                                 150000,
 		},
 		Phases: []run.Phase{
 			{Name: "mesh-rt", Cases: func(t string) int {
@@ -87,9 +99,9 @@ func Spec() *run.Spec {
 			}, Run: bytesRT, Batch: 100, CPUBudgetS: 20},
 			{Name: "large", Cases: func(t string) int {
 				if t == "thorough" {
-					return 200
+					return 260
 				}
-				return 20
+				return 26
 			}, Run: large, Batch: 2, CPUBudgetS: 120},
 			{Name: "fault-sequences", Cases: func(t string) int {
 				if t == "thorough" {
@@ -396,14 +408,40 @@ func (c *chunkReader) Read(p []byte) (int, error) {
 	return n, nil
 }
 
-func reader(r *rand.Rand, b []byte) (io.Reader, string) {
-	switch r.Intn(4) {
-	case 0:
-		return &chunkReader{b: b, chunk: 1 + r.Intn(7)}, "chunked-small"
-	case 1:
-		return &chunkReader{b: b, chunk: 37 + r.Intn(100)}, "chunked"
+// scratch returns the worker's scratch directory (one lookup per case).
+var scratchCtx *run.Ctx
+var scratchDir string
+
+func scratch(c *run.Ctx) string {
+	if scratchCtx != c {
+		scratchCtx, scratchDir = c, c.ScratchDir()
 	}
-	return bytes.NewReader(b), "bytes.Reader"
+	return scratchDir
+}
+
+// source draws the KIND of reader through which polyform gets the bytes.
+func source(c *run.Ctx, res *run.Result, b []byte) *gen.IOSource {
+	s := gen.NewIOSource(c.Rng, b, scratch(c), len(b) > 150000)
+	res.SetAdd("reader_kinds", s.Kind)
+	return s
+}
+
+// sinkWrite runs write against a sink of a drawn (or given) kind and returns what the sink received.
+func sinkWrite(c *run.Ctx, res *run.Result, kind string, write func(w io.Writer) error) (out []byte, err error, p *run.PanicInfo, sinkKind string) {
+	var sink *gen.IOSink
+	if kind == "" {
+		sink = gen.NewIOSink(c.Rng, scratch(c))
+		res.SetAdd("writer_kinds", sink.Kind)
+	} else {
+		sink = gen.NewIOSinkOfKind(c.Rng, kind, scratch(c))
+		res.SetAdd("large_sink_kinds", sink.Kind)
+	}
+	p = run.Try(func() { err = write(sink.W) })
+	got, ferr := sink.Finish()
+	if err == nil {
+		err = ferr
+	}
+	return append([]byte(nil), got...), err, p, sink.Kind
 }
 
 // --- shared oracle pieces ----------------------------------------------------
@@ -459,18 +497,16 @@ func compareBinary(res *run.Result, bin *stl.Binary, f *refFile, witness any) bo
 
 // rewrite checks stl.Write(stl.Read(b)) against b: same length, same count field and records.
 func rewrite(c *run.Ctx, res *run.Result, bin *stl.Binary, b []byte, witness any) {
-	var out bytes.Buffer
-	var err error
 	c.Note("stl.Write(stl.Read(b))")
-	if p := run.Try(func() { err = stl.Write(&out, *bin) }); p != nil {
-		res.Violate(panicClass(p), "stl.Write", "struct returned by stl.Read", p.Value+"\n"+p.Stack, witness)
+	o, err, p, sk := sinkWrite(c, res, "", func(w io.Writer) error { return stl.Write(w, *bin) })
+	if p != nil {
+		res.Violate(panicClass(p), "stl.Write", "struct returned by stl.Read, sink "+sk, p.Value+"\n"+p.Stack, witness)
 		return
 	}
 	if err != nil {
-		res.Violate("write-error", "stl.Write", "struct returned by stl.Read", err.Error(), witness)
+		res.Violate("write-error", "stl.Write", "struct returned by stl.Read, sink "+sk, err.Error(), witness)
 		return
 	}
-	o := out.Bytes()
 	if len(o) != len(b) {
 		res.Violate("size-law", "stl.Write(stl.Read)", "well-formed STL bytes",
 			fmt.Sprintf("input has %d bytes (= 84 + 50*%d), re-written file has %d bytes", len(b), (len(b)-84)/50, len(o)), witness)
@@ -531,7 +567,21 @@ func meshWitness(mm *meshModel) any {
 func meshRT(c *run.Ctx) run.Result { return meshRTn(c, -1) }
 
 func meshRTn(c *run.Ctx, forceN int) run.Result {
-	var res run.Result
+	res, _, _ := meshRTcore(c, forceN)
+	return res
+}
+
+// meshRTcore is the mesh-rt case; it also returns the mesh and the bytes written for it
+// (nil when the case failed before the bytes were verified).
+func meshRTcore(c *run.Ctx, forceN int) (run.Result, modeling.Mesh, []byte) {
+	res, m, b := meshRTinner(c, forceN)
+	if len(res.Violations) > 0 {
+		b = nil
+	}
+	return res, m, b
+}
+
+func meshRTinner(c *run.Ctx, forceN int) (res run.Result, m modeling.Mesh, b []byte) {
 	m, mm := genMesh(c.Rng, c.Tier, forceN)
 	n := mm.n
 	res.Sig = mm.sig()
@@ -551,18 +601,17 @@ func meshRTn(c *run.Ctx, forceN int) run.Result {
 	input := fmt.Sprintf("triangle mesh, %s, normals=%s", mm.pattern, mm.normals)
 
 	// 1. write
-	var buf bytes.Buffer
-	var err error
 	c.Note(fmt.Sprintf("stl.WriteMesh n=%d %s %s %s", n, mm.pattern, mm.normals, mm.class))
-	if p := run.Try(func() { err = stl.WriteMesh(&buf, m) }); p != nil {
-		res.Violate(panicClass(p), "stl.WriteMesh", input, p.Value+"\n"+p.Stack, wit)
-		return res
+	b, err, wp, sk := sinkWrite(c, &res, "", func(w io.Writer) error { return stl.WriteMesh(w, m) })
+	input += ", sink " + sk
+	if wp != nil {
+		res.Violate(panicClass(wp), "stl.WriteMesh", input, wp.Value+"\n"+wp.Stack, wit)
+		return
 	}
 	if err != nil {
 		res.Violate("write-error", "stl.WriteMesh", input, err.Error(), wit)
-		return res
+		return
 	}
-	b := append([]byte(nil), buf.Bytes()...)
 	res.Count("bytes_written", int64(len(b)))
 
 	// 2. size law
@@ -579,10 +628,10 @@ func meshRTn(c *run.Ctx, forceN int) run.Result {
 	}
 	if perr != nil {
 		res.Violate("malformed-file", "stl.WriteMesh", input, perr.Error(), wit)
-		return res
+		return
 	}
 	if len(f.Records) != n {
-		return res
+		return
 	}
 	res.Count("facets_parsed_independently", int64(n))
 	type exp struct {
@@ -648,34 +697,38 @@ func meshRTn(c *run.Ctx, forceN int) run.Result {
 	// 4. stl.ReadMesh
 	c.SaveInput(b)
 	var back *modeling.Mesh
-	rd, rk := reader(c.Rng, b)
-	res.SetAdd("reader_kinds", rk)
-	c.Note("stl.ReadMesh")
-	if p := run.Try(func() { back, err = stl.ReadMesh(rd) }); p != nil {
+	rd := source(c, &res, b)
+	c.Note("stl.ReadMesh from " + rd.Kind)
+	p := run.Try(func() { back, err = stl.ReadMesh(rd.R) })
+	rd.Close()
+	if p != nil {
 		res.Violate(panicClass(p), "stl.ReadMesh", "file written by stl.WriteMesh", p.Value+"\n"+p.Stack, wit)
-		return res
+		return
 	}
 	if err != nil || back == nil {
 		res.Violate("read-error", "stl.ReadMesh", "file written by stl.WriteMesh", fmt.Sprintf("error %v (mesh nil: %v)", err, back == nil), wit)
-		return res
+		return
 	}
 	checkReadMesh(&res, *back, n, func(t, k int) refVec { return f.Records[t].V[k] }, func(t int) (v3, int) { return want[t].n, want[t].kind }, mm.nor != nil, "file written by stl.WriteMesh", wit)
 
 	// 5. stl.Read against the independent parse, then stl.Write(stl.Read(b)) == b
 	var bin *stl.Binary
-	c.Note("stl.Read")
-	if p := run.Try(func() { bin, err = stl.Read(bytes.NewReader(b)) }); p != nil {
+	rd = source(c, &res, b)
+	c.Note("stl.Read from " + rd.Kind)
+	p = run.Try(func() { bin, err = stl.Read(rd.R) })
+	rd.Close()
+	if p != nil {
 		res.Violate(panicClass(p), "stl.Read", "file written by stl.WriteMesh", p.Value+"\n"+p.Stack, wit)
-		return res
+		return
 	}
 	if err != nil || bin == nil {
 		res.Violate("read-error", "stl.Read", "file written by stl.WriteMesh", fmt.Sprint(err), wit)
-		return res
+		return
 	}
 	if compareBinary(&res, bin, f, wit) {
 		rewrite(c, &res, bin, b, wit)
 	}
-	return res
+	return
 }
 
 // checkReadMesh compares a mesh returned by stl.ReadMesh with the n facets it must hold.
@@ -765,6 +818,8 @@ func checkReadMesh(res *run.Result, back modeling.Mesh, n int, pos func(t, k int
 
 // --- phase bytes-rt ------------------------------------------------------------
 
+var mixedArrangements = []string{"random", "zeros-first", "zeros-last", "zeros-middle", "zeros-both-ends", "alternating", "one-normal-last", "one-zero-first"}
+
 var foreignNormalKinds = []string{"zero", "geometric", "unit-random", "nonunit", "mixed-zero"}
 
 func f32vec(r *rand.Rand, class string) refVec {
@@ -821,6 +876,39 @@ func genFile(r *rand.Rand, tier string, forceN int) (*refFile, map[string]any) {
 	nk := foreignNormalKinds[r.Intn(len(foreignNormalKinds))]
 	ak := []string{"zero", "random", "ffff", "mixed"}[r.Intn(4)]
 	f.Records = make([]refRecord, n)
+	// mixed-zero files: where the records WITHOUT a stored normal lie relative to those with one
+	arr := ""
+	var zeroAt func(i int) bool
+	if nk == "mixed-zero" {
+		arr = mixedArrangements[r.Intn(len(mixedArrangements))]
+		if n < 3 && arr != "one-zero-first" && arr != "one-normal-last" {
+			arr = "random"
+		}
+		k0, k1 := 1, 2
+		if n >= 3 {
+			k0 = 1 + r.Intn(n-2)
+			k1 = k0 + 1 + r.Intn(n-k0-1)
+		}
+		par := r.Intn(2)
+		switch arr {
+		case "zeros-first":
+			zeroAt = func(i int) bool { return i < k0 }
+		case "zeros-last":
+			zeroAt = func(i int) bool { return i >= k0 }
+		case "zeros-middle":
+			zeroAt = func(i int) bool { return i >= k0 && i < k1 }
+		case "zeros-both-ends":
+			zeroAt = func(i int) bool { return i < k0 || i >= k1 }
+		case "alternating":
+			zeroAt = func(i int) bool { return i%2 == par }
+		case "one-normal-last":
+			zeroAt = func(i int) bool { return i != n-1 }
+		case "one-zero-first":
+			zeroAt = func(i int) bool { return i == 0 }
+		default:
+			zeroAt = func(i int) bool { return r.Intn(3) == 0 }
+		}
+	}
 	for i := range f.Records {
 		rec := &f.Records[i]
 		rec.V[0] = f32vec(r, class)
@@ -836,7 +924,10 @@ func genFile(r *rand.Rand, tier string, forceN int) (*refFile, map[string]any) {
 		}
 		kind := nk
 		if nk == "mixed-zero" {
-			kind = []string{"zero", "geometric", "unit-random"}[r.Intn(3)]
+			kind = []string{"geometric", "unit-random"}[r.Intn(2)]
+			if zeroAt(i) {
+				kind = "zero"
+			}
 		}
 		switch kind {
 		case "geometric":
@@ -863,16 +954,33 @@ func genFile(r *rand.Rand, tier string, forceN int) (*refFile, map[string]any) {
 	}
 	f.Count = uint32(n)
 	desc := map[string]any{"n": n, "header": hk, "class": class, "normals": nk, "attr": ak}
+	if arr != "" {
+		desc["mixed"] = arr
+	}
 	return f, desc
 }
 
 func bytesRT(c *run.Ctx) run.Result { return bytesRTn(c, -1) }
 
 func bytesRTn(c *run.Ctx, forceN int) run.Result {
-	var res run.Result
+	res, _, _ := bytesRTcore(c, forceN)
+	return res
+}
+
+// bytesRTcore is the bytes-rt case; it also returns the struct stl.Read produced and the
+// input bytes (nil when the case failed).
+func bytesRTcore(c *run.Ctx, forceN int) (run.Result, *stl.Binary, []byte) {
+	res, bin, b := bytesRTinner(c, forceN)
+	if len(res.Violations) > 0 {
+		return res, nil, nil
+	}
+	return res, bin, b
+}
+
+func bytesRTinner(c *run.Ctx, forceN int) (res run.Result, bin *stl.Binary, b []byte) {
 	f, desc := genFile(c.Rng, c.Tier, forceN)
 	n := len(f.Records)
-	b := encodeSTL(f)
+	b = encodeSTL(f)
 	res.Sig = fmt.Sprintf("bytes/n%d/%s/%s/%s/%s", bucket(n), desc["normals"], desc["class"], desc["attr"], desc["header"])
 	res.Sample = desc
 	res.SetAdd("foreign_normal_kinds", desc["normals"].(string))
@@ -887,6 +995,35 @@ func bytesRTn(c *run.Ctx, forceN int) run.Result {
 		anyNormal = anyNormal || !rec.Normal.zero()
 	}
 	res.Nontrivial = n >= 2 && (anyAttr || anyNormal)
+	if a, ok := desc["mixed"].(string); ok {
+		res.SetAdd("mixed_zero_arrangements", a)
+	}
+	if anyNormal {
+		firstN, lastN := -1, -1
+		for i, rec := range f.Records {
+			if !rec.Normal.zero() {
+				if firstN < 0 {
+					firstN = i
+				}
+				lastN = i
+			}
+		}
+		before, after, between := firstN, n-1-lastN, 0
+		for i := firstN; i <= lastN; i++ {
+			if f.Records[i].Normal.zero() {
+				between++
+			}
+		}
+		if before > 0 {
+			res.Count("files_with_normal_less_records_before_the_first_normal", 1)
+		}
+		if after > 0 {
+			res.Count("files_with_normal_less_records_after_the_last_normal", 1)
+		}
+		if between > 0 {
+			res.Count("files_with_normal_less_records_between_normals", 1)
+		}
+	}
 	wit := map[string]any{"desc": desc}
 	if len(b) <= 84+50*12 {
 		wit["bytes"] = b
@@ -897,18 +1034,19 @@ func bytesRTn(c *run.Ctx, forceN int) run.Result {
 	c.SaveInput(b)
 
 	// 1. stl.Read decodes what the reference parser decodes
-	var bin *stl.Binary
 	var err error
-	rd, rk := reader(c.Rng, b)
-	res.SetAdd("reader_kinds", rk)
-	c.Note(fmt.Sprintf("stl.Read n=%d", n))
-	if p := run.Try(func() { bin, err = stl.Read(rd) }); p != nil {
+	rd := source(c, &res, b)
+	c.Note(fmt.Sprintf("stl.Read n=%d from %s", n, rd.Kind))
+	p := run.Try(func() { bin, err = stl.Read(rd.R) })
+	rd.Close()
+	input += ", reader " + rd.Kind
+	if p != nil {
 		res.Violate(panicClass(p), "stl.Read", input, p.Value+"\n"+p.Stack, wit)
-		return res
+		return
 	}
 	if err != nil || bin == nil {
 		res.Violate("read-error", "stl.Read", input, fmt.Sprintf("well-formed file of %d bytes (n=%d) rejected: %v", len(b), n, err), wit)
-		return res
+		return
 	}
 	if !bytes.Equal(bin.Header[:], f.Header) {
 		res.Violate("record-field-mismatch", "stl.Read", input, fmt.Sprintf("header: file % x, stl.Read % x", f.Header, bin.Header[:]), wit)
@@ -921,14 +1059,17 @@ func bytesRTn(c *run.Ctx, forceN int) run.Result {
 
 	// 3. stl.WriteMesh(stl.ReadMesh(b))
 	var back *modeling.Mesh
-	c.Note("stl.ReadMesh")
-	if p := run.Try(func() { back, err = stl.ReadMesh(bytes.NewReader(b)) }); p != nil {
+	rd = source(c, &res, b)
+	c.Note("stl.ReadMesh from " + rd.Kind)
+	p = run.Try(func() { back, err = stl.ReadMesh(rd.R) })
+	rd.Close()
+	if p != nil {
 		res.Violate(panicClass(p), "stl.ReadMesh", input, p.Value+"\n"+p.Stack, wit)
-		return res
+		return
 	}
 	if err != nil || back == nil {
 		res.Violate("read-error", "stl.ReadMesh", input, fmt.Sprint(err), wit)
-		return res
+		return
 	}
 	// expected normal per facet when read as a mesh
 	type exp struct {
@@ -956,22 +1097,21 @@ func bytesRTn(c *run.Ctx, forceN int) run.Result {
 	checkReadMesh(&res, *back, n, func(t, k int) refVec { return f.Records[t].V[k] },
 		func(t int) (v3, int) { return want[t].n, want[t].kind }, anyNormal, input, wit)
 	if len(res.Violations) > 0 {
-		return res
+		return
 	}
-	var out bytes.Buffer
 	c.Note("stl.WriteMesh(stl.ReadMesh(b))")
-	if p := run.Try(func() { err = stl.WriteMesh(&out, *back) }); p != nil {
-		res.Violate(panicClass(p), "stl.WriteMesh(stl.ReadMesh)", input, p.Value+"\n"+p.Stack, wit)
-		return res
+	o, err, wp, _ := sinkWrite(c, &res, "", func(w io.Writer) error { return stl.WriteMesh(w, *back) })
+	if wp != nil {
+		res.Violate(panicClass(wp), "stl.WriteMesh(stl.ReadMesh)", input, wp.Value+"\n"+wp.Stack, wit)
+		return
 	}
 	if err != nil {
 		res.Violate("write-error", "stl.WriteMesh(stl.ReadMesh)", input, err.Error(), wit)
-		return res
+		return
 	}
-	o := out.Bytes()
 	if len(o) != 84+50*n {
 		res.Violate("size-law", "stl.WriteMesh(stl.ReadMesh)", input, fmt.Sprintf("n=%d: expected %d bytes, got %d", n, 84+50*n, len(o)), wit)
-		return res
+		return
 	}
 	g, perr := parseSTL(o)
 	if perr != nil || int(g.Count) != n {
@@ -980,7 +1120,7 @@ func bytesRTn(c *run.Ctx, forceN int) run.Result {
 			msg = perr.Error()
 		}
 		res.Violate("count-field", "stl.WriteMesh(stl.ReadMesh)", input, msg, wit)
-		return res
+		return
 	}
 	for t := 0; t < n; t++ {
 		in, ot := f.Records[t], g.Records[t]
@@ -988,7 +1128,7 @@ func bytesRTn(c *run.Ctx, forceN int) run.Result {
 			if !vecBitsEq(in.V[k], ot.V[k]) && !(f32eq(in.V[k][0], ot.V[k][0]) && f32eq(in.V[k][1], ot.V[k][1]) && f32eq(in.V[k][2], ot.V[k][2])) {
 				res.Violate("vertex-not-reproduced", "stl.WriteMesh(stl.ReadMesh)", input,
 					fmt.Sprintf("record %d vertex %d: file %v, re-written %v", t, k+1, in.V[k], ot.V[k]), wit)
-				return res
+				return
 			}
 		}
 		w := want[t]
@@ -998,7 +1138,7 @@ func bytesRTn(c *run.Ctx, forceN int) run.Result {
 			if !(ot.Normal.finite() && near(ot.Normal.f64(), w.n, normalTol)) {
 				res.Violate("normal-not-reproduced", "stl.WriteMesh(stl.ReadMesh)", input,
 					fmt.Sprintf("record %d: unit normal %v came back as %v", t, in.Normal, ot.Normal), wit)
-				return res
+				return
 			}
 		case w.kind == 3:
 			res.Count("nonunit_normals_seen", 1)
@@ -1007,19 +1147,19 @@ func bytesRTn(c *run.Ctx, forceN int) run.Result {
 			if !ot.Normal.zero() && !(ot.Normal.finite() && near(ot.Normal.f64(), w.n, normalTol)) {
 				res.Violate("normal-not-reproduced", "stl.WriteMesh(stl.ReadMesh)", input,
 					fmt.Sprintf("record %d stores no normal: re-written normal %v is neither zero nor the geometric normal %v", t, ot.Normal, w.n), wit)
-				return res
+				return
 			}
 		}
 	}
 	res.Count("mesh_path_vertices_reproduced", int64(3*n))
-	return res
+	return
 }
 
 // --- phase large -----------------------------------------------------------------
 
 // largeSizes: counts around typical batch / buffer sizes (1024·k, 4096, 8192, 16384,
 // 65536 bytes or records); 0 stands for a random count in 20000…70000.
-var largeSizes = []int{4095, 4096, 4097, 5000, 8191, 8192, 8193, 10000, 16385, 0}
+var largeSizes = []int{4095, 4096, 4097, 5000, 8191, 8192, 8193, 10000, 12289, 16385, 20000, 50000, 0}
 
 func large(c *run.Ctx) run.Result {
 	n := largeSizes[(c.Case/2)%len(largeSizes)]
@@ -1027,17 +1167,65 @@ func large(c *run.Ctx) run.Result {
 		n = 20000 + c.Rng.Intn(50001)
 	}
 	var res run.Result
+	var write func(w io.Writer) error
+	var good []byte
+	site := ""
 	if c.Case%2 == 0 {
-		res = meshRTn(c, n)
+		r, m, b := meshRTcore(c, n)
+		res, good, site = r, b, "stl.WriteMesh"
+		write = func(w io.Writer) error { return stl.WriteMesh(w, m) }
 		res.SetAdd("large_directions", "mesh→WriteMesh→Read/ReadMesh")
 	} else {
-		res = bytesRTn(c, n)
+		r, bin, b := bytesRTcore(c, n)
+		res, good, site = r, b, "stl.Write"
+		if bin != nil {
+			write = func(w io.Writer) error { return stl.Write(w, *bin) }
+		}
 		res.SetAdd("large_directions", "bytes→Read→Write")
 	}
 	res.Sig = "large/" + res.Sig
 	res.SetAdd("large_sizes", fmt.Sprint(n))
-	if len(res.Violations) == 0 {
-		res.Count("large_records_compared", int64(n))
+	if len(res.Violations) > 0 || good == nil || write == nil {
+		return res
+	}
+	res.Count("large_records_compared", int64(n))
+	// The same output once more into every kind of slow / piecewise sink: count field and
+	// records must be byte for byte those of the output verified above, in order.
+	for _, kind := range gen.SlowSinkKinds {
+		c.Note(fmt.Sprintf("%s n=%d into sink %s", site, n, kind))
+		out, err, p, sk := sinkWrite(c, &res, kind, write)
+		input := fmt.Sprintf("n=%d triangles, sink %s", n, sk)
+		wit := map[string]any{"n": n, "sink": sk}
+		switch {
+		case p != nil:
+			res.Violate(panicClass(p), site+" (slow or piecewise sink)", input, p.Value+"\n"+p.Stack, wit)
+		case err != nil:
+			res.Violate("write-error", site+" (slow or piecewise sink)", input, err.Error(), wit)
+		case len(out) != len(good):
+			res.Violate("size-law", site+" (slow or piecewise sink)", input, fmt.Sprintf("expected %d bytes (84+50·%d), the sink received %d", len(good), n, len(out)), wit)
+		case !bytes.Equal(out[80:], good[80:]):
+			k := 80
+			for out[k] == good[k] {
+				k++
+			}
+			if k < 84 {
+				res.Violate("count-field", site+" (slow or piecewise sink)", input, fmt.Sprintf("count field % x, expected % x", out[80:84], good[80:84]), wit)
+				break
+			}
+			rec, off := (k-84)/50, (k-84)%50
+			bad := 0
+			for q := 0; q < n; q++ {
+				if !bytes.Equal(out[84+50*q:134+50*q], good[84+50*q:134+50*q]) {
+					bad++
+				}
+			}
+			lo := 84 + 50*rec
+			res.Violate("records-differ-by-sink", site+" (slow or piecewise sink)", input,
+				fmt.Sprintf("%d of %d records differ from the output written to a plain buffer (which the record parser verified); first: record %d, byte %d (%s)\nexpected % x\nreceived % x",
+					bad, n, rec, off, fieldAt(off), good[lo:lo+50], out[lo:lo+50]), wit)
+		default:
+			res.Count("large_sink_outputs_identical", 1)
+		}
 	}
 	return res
 }
